@@ -139,3 +139,57 @@ def add_misc(reg):
         st.notes.append(('env', 'time.time', 'ret', t))
         return ex.val(t, st)
     reg.externs['time.time'] = now
+
+
+def add_text(reg):
+    """utf-8 decode/encode: identity on ASCII, otherwise uninterpreted (E-CODEC)."""
+    ascii_re = z3.Star(z3.Range(chr(0), chr(127)))
+    dec = SpecFun('utf8dec', ['bytes'], 'str')
+    ok = SpecFun('utf8_ok', ['bytes'], 'bool')
+    enc = SpecFun('utf8enc', ['str'], 'bytes')
+    dec.unfold = lambda s: [z3.Implies(z3.InRe(s, ascii_re), z3.And(dec.decl(s) == s, ok.decl(s)))]
+    enc.unfold = lambda s: [z3.Implies(z3.InRe(s, ascii_re), enc.decl(s) == s)]
+    reg.specfuns.update(utf8dec=dec, utf8_ok=ok, utf8enc=enc)
+    reg.specfuns['is_ascii'] = SpecFun('is_ascii', ['bytes'], 'bool', define=lambda s: z3.InRe(s, ascii_re))
+    reg.assumptions.append('E-CODEC: bytes.decode("utf-8") is the identity on ASCII input and raises UnicodeDecodeError '
+                           'exactly when the input is not valid UTF-8 (uninterpreted otherwise)')
+
+
+def add_ospath(reg):
+    """os.path.normpath / commonprefix / str.rstrip('/') (E-PATH)."""
+    norm = SpecFun('normpath', ['str'], 'str')
+    # E-PATH: the result of normpath has no trailing separator unless it is the root itself,
+    # and contains no '/../' or '/./' segment or '//' (POSIX: absolute input)
+    def norm_ax(s):
+        r = norm.decl(s)
+        return [z3.Or(z3.Not(z3.SuffixOf(z3.StringVal('/'), r)), r == z3.StringVal('/'), r == z3.StringVal('//')),
+                z3.Length(r) > 0,
+                z3.Implies(z3.Not(z3.PrefixOf(z3.StringVal('//'), s)), z3.Not(z3.PrefixOf(z3.StringVal('//'), r))),
+                z3.Implies(z3.PrefixOf(z3.StringVal('/'), s), z3.PrefixOf(z3.StringVal('/'), r))]
+    norm.unfold = norm_ax
+    reg.specfuns['normpath'] = norm
+
+    def normpath(ex, st, args, kwargs, fr):
+        for ax in norm_ax(args[0].t):
+            st.assume(ax)
+        return ex.val(VStr(norm.decl(args[0].t), 'str'), st)
+    reg.externs['posixpath.normpath'] = normpath
+
+    def commonprefix(ex, st, args, kwargs, fr):
+        h = st.heap[args[0].ref]
+        if not h.items or len(h.items) != 2:
+            raise Unsupported('commonprefix of a non-literal list')
+        a, b = h.items[0].t, h.items[1].t
+        p = z3.String(fresh_name('commonprefix'))
+        n = z3.Length(p)
+        st.assume(z3.And(z3.PrefixOf(p, a), z3.PrefixOf(p, b)))
+        st.assume(z3.Or(n == z3.Length(a), n == z3.Length(b), z3.SubString(a, n, 1) != z3.SubString(b, n, 1)))
+        return ex.val(VStr(p, 'str'), st)
+    reg.externs['genericpath.commonprefix'] = commonprefix
+    rs = SpecFun('rstrip_slash', ['str'], 'str')
+    rs.unfold = lambda s: [z3.Implies(z3.Not(z3.SuffixOf(z3.StringVal('/'), s)), rs.decl(s) == s),
+                           rs.decl(z3.StringVal('/')) == z3.StringVal(''),
+                           z3.PrefixOf(rs.decl(s), s), z3.Not(z3.SuffixOf(z3.StringVal('/'), rs.decl(s)))]
+    reg.specfuns['rstrip_slash'] = rs
+    reg.assumptions.append('E-PATH: os.path.normpath removes every "."/".." segment and repeated separators of an '
+                           'absolute POSIX path (its result has no trailing separator unless it is the root); symlinks ignored')
